@@ -763,7 +763,10 @@ class Executor:
                 j = st.fresh_const("j", L.Int)
                 st.assume([0 <= j, j < seq.len()])
                 st.assume(spec.inv(View(self, st), j, pre_view))
-                self.assign(target, seq.at(j))
+                elem = seq.at(j)
+                if hasattr(elem, "t"):
+                    st.assume(elem.t == elem.t)  # seed term for the matcher: the current element
+                self.assign(target, elem)
             else:
                 st.assume(spec.inv(View(self, st), None, pre_view))
                 c = self.truth(self.eval(node.test))
@@ -786,6 +789,7 @@ class Executor:
             raise PathEnd()
         else:
             if is_for:
+                st.assume(seq.len() >= 0)  # (also a seed term: the iterated sequence)
                 st.assume(spec.inv(View(self, st), seq.len(), pre_view))
             else:
                 # exit of a while loop by its condition is handled in the iteration case
@@ -916,6 +920,8 @@ class Executor:
             return v.keylist()
         if isinstance(v, VSeq):
             return v
+        if isinstance(v, VSet):
+            return v.enum()
         raise Unsupported(f"iteration over {v.ty}")
 
     def dyn_keys_distinct(self, items):
@@ -1028,6 +1034,8 @@ class Executor:
             return VCallable(f"method:dict.{attr}", bound=o)
         if isinstance(o, VStr):
             return VCallable(f"method:str.{attr}", bound=o)
+        if isinstance(o, (VSet, VEmptySet)):
+            return VCallable(f"method:set.{attr}", bound=o)
         if isinstance(o, VEmptyDict):
             o = VConcDict([])
         if isinstance(o, VConcDict):
@@ -1049,6 +1057,8 @@ class Executor:
         raise Unsupported(f"attribute .{attr} on {o.ty}")
 
     def expr_Subscript(self, node):
+        if isinstance(node.value, ast.Name) and node.value.id in ("frozenset", "set", "list", "dict") and node.value.id not in self.st.env:
+            return VCallable("builtins." + node.value.id)  # generic alias such as frozenset[T]
         o = self.eval(node.value)
         st = self.st
         if isinstance(o, VRef) and st.obj(o.ref)["kind"] == "rec":
@@ -1067,7 +1077,11 @@ class Executor:
         if isinstance(o, VList) and isinstance(k, VInt):
             n = o.len()
             self.oblige("noraise.index", node, z3.And(-n <= k.t, k.t < n))
-            return o.at(z3.If(k.t < 0, n + k.t, k.t))
+            # Python's negative indices; a case split (not an if-then-else term) keeps the
+            # index syntactically simple for the matcher
+            if self.choose(k.t < 0):
+                return o.at(z3.simplify(n + k.t))
+            return o.at(k.t)
         if isinstance(o, VTuple) and isinstance(k, VInt):
             kk = z3.simplify(k.t)
             if z3.is_int_value(kk):
@@ -1090,6 +1104,8 @@ class Executor:
             return z3.BoolVal(False)
         if isinstance(v, VDict):
             return v.KL.len(v.keys) > 0
+        if isinstance(v, VSet):
+            return v.t != z3.EmptySet(v.et.sort())
         if isinstance(v, VFalseOr):
             return z3.And(z3.Not(v.isfalse), self.truth(v.val))
         if isinstance(v, VOptional):
@@ -1145,6 +1161,13 @@ class Executor:
                 return VInt(a.t * b.t)
         if isinstance(a, (VFloat, VInt)) and isinstance(b, (VFloat, VInt)):
             return VFloat()
+        if isinstance(a, VSet) and isinstance(b, VSet) and a.t.sort() == b.t.sort():
+            if isinstance(op, ast.BitAnd):
+                return VSet(z3.SetIntersect(a.t, b.t), a.et)
+            if isinstance(op, ast.BitOr):
+                return VSet(z3.SetUnion(a.t, b.t), a.et)
+            if isinstance(op, ast.Sub):
+                return VSet(z3.SetDifference(a.t, b.t), a.et)
         if isinstance(a, VList) and isinstance(b, VList) and isinstance(op, ast.Add):
             raise Unsupported("list concatenation")
         raise Unsupported(f"binary op {op.__class__.__name__} on {a.ty},{b.ty}")
@@ -1170,6 +1193,13 @@ class Executor:
             raise Unsupported("type(x) == list on " + str(v.ty))
         a = self.eval(node.left)
         b = self.eval(node.comparators[0])
+        if isinstance(a, VForm) and isinstance(b, VBool) and isinstance(op, ast.Eq):
+            # z3 API: `expr == False` builds the formula Not(expr) (`== True`: expr itself)
+            bv = z3.simplify(b.t)
+            if z3.is_false(bv):
+                return VForm(L.f_not(a.t))
+            if z3.is_true(bv):
+                return a
         return VBool(self.compare(op, a, b, node))
 
     def compare(self, op, a, b, node):
@@ -1202,6 +1232,9 @@ class Executor:
                 if present is None:
                     present = z3.BoolVal(a.const in rec["fields"])
                 return present if isinstance(op, ast.In) else z3.Not(present)
+            if isinstance(b, VSet) and hasattr(a, "t") and a.t.sort() == b.et.sort():
+                r = z3.IsMember(a.t, b.t)
+                return r if isinstance(op, ast.In) else z3.Not(r)
             if isinstance(b, VDict) and hasattr(a, "t") and a.t.sort() == b.kt.sort():
                 r = self.mem_keys(b.keys, a.t)
                 return r if isinstance(op, ast.In) else z3.Not(r)
@@ -1246,6 +1279,12 @@ class Executor:
             return a.t == b.t
         if isinstance(a, VList) and isinstance(b, VList) and a.t.sort() == b.t.sort():
             return a.t == b.t
+        if isinstance(a, VSet) and isinstance(b, VSet) and a.t.sort() == b.t.sort():
+            return a.t == b.t
+        if isinstance(a, VSet) and isinstance(b, VEmptySet):
+            return a.t == z3.EmptySet(a.et.sort())
+        if isinstance(b, VSet) and isinstance(a, VEmptySet):
+            return b.t == z3.EmptySet(b.et.sort())
         raise Unsupported(f"== on {a.ty},{b.ty}")
 
     # ---- comprehensions ------------------------------------------------------------------
@@ -1428,6 +1467,8 @@ class Executor:
             return VFalseOr(z3.BoolVal(False), self.coerce(v, ty.inner, what), ty.inner)
         if isinstance(v, VEmptyList) and isinstance(ty, TList):
             return VList(ty.et.list_theory().nil, ty.et)
+        if isinstance(v, VEmptySet) and isinstance(ty, TSet):
+            return VSet(z3.EmptySet(ty.et.sort()), ty.et)
         if isinstance(v, VEmptyDict) and isinstance(ty, TDict):
             return VDict(ty.kt.list_theory().nil, self.st.fresh_const("emptydict", z3.ArraySort(ty.kt.sort(), ty.et.sort())), ty.et, ty.kt)
         if ty is TOpaque:
@@ -1444,6 +1485,13 @@ def _with_env(st, env):
     s.env = env
     s.heap = st.heap
     return s
+
+
+class VEmptySet(V):
+    """set() / frozenset() / frozenset[T]() before the element type is known"""
+
+    def __init__(self):
+        self.ty = TOpaque
 
 
 class VEmptyDict(V):
